@@ -132,6 +132,27 @@ def _abs_module(cur: str, is_pkg: bool, level: int, mod: Optional[str]) -> str:
     return '.'.join(parts)
 
 
+class _FuncTable(dict):
+    """qualified name -> FuncInfo; a pinned name whose function was relocated (Program.relocated) still finds it.  Iteration
+    yields each function once, under the name it is defined at."""
+    prog = None
+
+    def __missing__(self, q):
+        r = self.prog.relocated(q) if self.prog is not None else None
+        if r is None:
+            raise KeyError(q)
+        return dict.__getitem__(self, r)
+
+    def __contains__(self, q):
+        return dict.__contains__(self, q) or (self.prog is not None and self.prog.relocated(q) is not None)
+
+    def get(self, q, default=None):
+        try:
+            return self[q]
+        except KeyError:
+            return default
+
+
 class Program:
     """Whole-package model.  root = repository root (contains src/rsatoolbox)."""
 
@@ -141,14 +162,23 @@ class Program:
         if not os.path.isdir(self.src_root):
             raise AnalysisError(f'package source not found under {self.src_root}')
         self.modules: Dict[str, ModuleInfo] = {}
-        self.functions: Dict[str, FuncInfo] = {}
+        self.functions: Dict[str, FuncInfo] = _FuncTable()
         self.classes: Dict[str, ClassInfo] = {}
         self.methods_by_name: Dict[str, List[str]] = {}
         self.digest = ''
+        self._reloc: Dict[str, Optional[str]] = {}
+        self._reloc_all = False
+        self.moved_from: Dict[str, str] = {}
+        self.rekeyed: Dict[str, str] = {}
         self._load()
-        from .inline import inline_across_modules
-        self.inlined_calls = getattr(self, 'inlined_calls', 0) + inline_across_modules(self.modules, _abs_module, PKG)
+        from .inline import inline_across_modules, inline_new_helpers, adopt_new_definitions
+        self.inlined_calls = adopt_new_definitions(self.modules, _abs_module, PKG)
+        for rel, mi in self.modules.items():
+            self.inlined_calls += inline_new_helpers(mi.tree, rel)
+        self.inlined_calls += inline_across_modules(self.modules, _abs_module, PKG)
         self._index()
+        self.functions.prog = self
+        self._rekey_relocated()
 
     # ------------------------------------------------------------------ load
     def _load(self):
@@ -175,8 +205,6 @@ class Program:
                 tree = ast.parse(data.decode('utf-8'), filename=f)
             except SyntaxError as e:
                 raise AnalysisError(f'cannot parse {f}: {e}')
-            from .inline import inline_new_helpers
-            self.inlined_calls = getattr(self, 'inlined_calls', 0) + inline_new_helpers(tree, rel)
             self.modules[rel] = ModuleInfo(rel, f, tree, is_pkg, data.decode('utf-8'))
         self.digest = h.hexdigest()
 
@@ -391,13 +419,113 @@ class Program:
         return out
 
     # --------------------------------------------------------------- helpers
+    def relocated(self, q: str) -> Optional[str]:
+        """a qualified name that no longer has a definition of its own but is still BOUND to a function of the package: a
+        module-level name that the module now imports from another module (`from ._impl import f`: `mod.f` is still `f`), or a
+        method that the class now inherits (moved to a mixin / base class).  Returns that function's qualified name."""
+        if dict.__contains__(self.functions, q):
+            return q
+        if q in self._reloc:
+            return self._reloc[q]
+        out = None
+        parts = q.split('.')
+        for k in range(len(parts) - 1, 0, -1):
+            mn = '.'.join(parts[:k])
+            if mn not in self.modules:
+                continue
+            tail = parts[k:]
+            m = self.modules[mn]
+            if len(tail) == 1:
+                if tail[0] in m.imports and tail[0] not in m.defs:
+                    r = self.resolve_dotted(m.imports[tail[0]])
+                    if r and r.startswith('func:'):
+                        out = r[5:]
+            elif len(tail) == 2:
+                r = m.defs.get(tail[0])
+                if r is None and tail[0] in m.imports:
+                    r = self.resolve_dotted(m.imports[tail[0]])
+                if r and r.startswith('class:'):
+                    out = self.lookup_method(r[6:], tail[1])
+            break
+        self._reloc[q] = out
+        if out is not None:
+            self.moved_from.setdefault(out, q)
+        return out
+
+    def _rekey_relocated(self):
+        """A pinned function that was relocated one-to-one (its module imports it back from a new module; its class inherits it from
+        a new mixin that only this class uses) is registered under its PINNED name: call resolution, summaries, anchors and the
+        exemption tables then see the function they always saw.  Its body is still resolved in the module that holds it."""
+        self.canonical('')
+        inv: Dict[str, List[str]] = {}
+        for old, new in self._reloc.items():
+            if new:
+                inv.setdefault(new, []).append(old)
+        for new, olds in inv.items():
+            if len(olds) != 1:
+                continue
+            old = olds[0]
+            fi0 = dict.get(self.functions, new)
+            if fi0 is None:
+                continue
+            for q in [k for k in dict.keys(self.functions) if k == new or k.startswith(new + '.<locals>.')]:
+                fi = dict.pop(self.functions, q)
+                fi.qname = old + q[len(new):]
+                if fi.parent and (fi.parent == new or fi.parent.startswith(new + '.<locals>.')):
+                    fi.parent = old + fi.parent[len(new):]
+                dict.__setitem__(self.functions, fi.qname, fi)
+            for m in self.modules.values():
+                for k, v in m.defs.items():
+                    if v == 'func:' + new:
+                        m.defs[k] = 'func:' + old
+            for c in self.classes.values():
+                for k, v in c.methods.items():
+                    if v == new:
+                        c.methods[k] = old
+            for lst in self.methods_by_name.values():
+                for i, v in enumerate(lst):
+                    if v == new:
+                        lst[i] = old
+            if fi0.cls:
+                ocls = old.rsplit('.', 1)[0]
+                if ocls in self.classes:
+                    fi0.cls = ocls
+            self.rekeyed[old] = new
+            del self._reloc[old]
+            self.moved_from.pop(new, None)
+
+    def canonical(self, q: str) -> str:
+        """the pinned name of a relocated function (see relocated), q itself otherwise"""
+        if not self._reloc_all:
+            self._reloc_all = True
+            from .inline import frozen_functions
+            fz = frozen_functions()
+            for mod, names in fz.items():
+                if mod.startswith('<') or mod not in self.modules:
+                    continue
+                for nm in names:
+                    if not dict.__contains__(self.functions, f'{mod}.{nm}'):
+                        self.relocated(f'{mod}.{nm}')
+            for mod, classes in fz.get('<methods>', {}).items():
+                for cn, names in classes.items():
+                    for nm in names:
+                        if not dict.__contains__(self.functions, f'{mod}.{cn}.{nm}') and mod in self.modules:
+                            self.relocated(f'{mod}.{cn}.{nm}')
+        return self.moved_from.get(q, q)
+
+    def pinned_names(self, q: str) -> Set[str]:
+        """q and every pinned name that now resolves to q (see relocated)"""
+        self.canonical(q)
+        return {q} | {old for old, new in self._reloc.items() if new == q}
+
     def func(self, q: str) -> FuncInfo:
-        if q not in self.functions:
+        r = self.relocated(q)
+        if r is None:
             raise AnalysisError(f'anchor function {q} not found in the tree (renamed/removed?)')
-        return self.functions[q]
+        return self.functions[r]
 
     def has_func(self, q: str) -> bool:
-        return q in self.functions
+        return self.relocated(q) is not None
 
     def module_of(self, f: FuncInfo) -> ModuleInfo:
         return self.modules[f.module]
@@ -445,6 +573,8 @@ def _generic_names() -> Set[str]:
     s: Set[str] = set()
     for t in (list, dict, str, set, tuple, bytes, int, float, object):
         s |= set(dir(t))
+    # namedtuple / dataclass / generator API: a method of that name on an unknown receiver is not a method of the package
+    s |= {'_replace', '_asdict', '_make', '_fields', '_field_defaults', 'send', 'throw', 'close', 'replace', 'fields', 'asdict', 'astuple'}
     s |= {
         # numpy.ndarray / numpy module API
         'mean', 'sum', 'std', 'var', 'min', 'max', 'argmin', 'argmax', 'argsort', 'sort', 'copy',
